@@ -51,6 +51,9 @@ type respClient struct {
 	PollAt []time.Duration
 	// NoDump: record delivered packages without rendering them (C10 measures allocations).
 	NoDump bool
+	// Hooks registers a message hook and an environment-change hook whose calls are recorded among the
+	// deliveries (plain builds only: the hooks run in the reader task).
+	Hooks bool
 }
 
 type respResult struct {
@@ -162,6 +165,18 @@ func runResp(cfg simrt.Config, d respDelivery, c respClient) *respResult {
 		}
 		ctx, cancel := simrt.WithTimeout(context.Background(), c.DrainFor)
 		defer cancel()
+		if c.Hooks {
+			ch.RegisterEEDHooks(func(e tds.EEDPackage) {
+				r := PkgRec{Dump: "HOOK " + Dump(e), Type: "hook:eed", Now: simrt.SimNow()}
+				r.Seq = simrt.Record("hook", "eed", "", 0)
+				res.Recs = append(res.Recs, r)
+			})
+			ch.RegisterEnvChangeHooks(func(t tds.EnvChangeType, o, n string) {
+				r := PkgRec{Dump: fmt.Sprintf("HOOK env type=%d old=%q new=%q", t, o, n), Type: "hook:env", Now: simrt.SimNow()}
+				r.Seq = simrt.Record("hook", "env", "", 0)
+				res.Recs = append(res.Recs, r)
+			})
+		}
 		if err := ch.SendPackage(ctx, &tds.LanguagePackage{Cmd: "q"}); err != nil {
 			res.SendErr = err.Error()
 			return
